@@ -80,14 +80,13 @@ int label(numpy::aligned_array<int> labeled, const numpy::aligned_array<int> Bc)
         data[i] = (data[i] ? i : -1);
     }
     numpy::aligned_array<int>::iterator iter = labeled.begin();
-    filter_iterator<int> filter(labeled.raw_array(), Bc.raw_array());
+    filter_iterator<int> filter(labeled.raw_array(), Bc.raw_array(), ExtendConstant, true);
     const int N2 = filter.size();
     for (int i = 0; i != N; ++i, filter.iterate_both(iter)) {
         if (*iter != -1) {
             for (int j = 0; j != N2; ++j) {
                 int arr_val = false;
-                filter.retrieve(iter, j, arr_val);
-                if (arr_val != -1) {
+                if (filter.retrieve(iter, j, arr_val) && arr_val != -1) {
                     join(data, i, arr_val);
                 }
             }
